@@ -237,7 +237,7 @@ func cmdCheck(args []string) int {
 	if *timeout > 0 {
 		to = *timeout
 	}
-	disagreements := solveAll(units, solveConfig{workdir: *workdir, timeoutS: to, all: *tier == "thorough", jobs: 16})
+	disagreements := solveAll(units, solveConfig{workdir: *workdir, timeoutS: to, all: *tier == "thorough", jobs: solverJobs()})
 	tSolve := time.Since(t0) - tLoad - tGen
 
 	// known findings
@@ -554,4 +554,28 @@ func cmdSweep(args []string) int {
 		fmt.Printf("sweep: %d obligations not discharged without annotations\n", bad)
 	}
 	return 0
+}
+
+// solverJobs: parallel obligations; backs off when the machine is already overloaded (each job races 3-4 solvers).
+func solverJobs() int {
+	if v := os.Getenv("GOVC_JOBS"); v != "" {
+		if n, err := strconv.Atoi(v); err == nil && n > 0 {
+			return n
+		}
+	}
+	data, err := os.ReadFile("/proc/loadavg")
+	if err != nil {
+		return 12
+	}
+	f := strings.Fields(string(data))
+	load, _ := strconv.ParseFloat(f[0], 64)
+	switch {
+	case load > 64:
+		return 2
+	case load > 24:
+		return 4
+	case load > 12:
+		return 8
+	}
+	return 12
 }
